@@ -6,6 +6,12 @@
 mod out;
 mod c11;
 mod c12;
+mod c15;
+mod c16;
+mod c38;
+mod c40;
+mod c41;
+mod c42;
 
 fn main() {
     let args: Vec<String> = std::env::args().collect();
@@ -18,6 +24,12 @@ fn main() {
     let o = match sub {
         "c11" => c11::run(quick, seed, &work),
         "c12" => c12::run(quick, seed),
+        "c15" => c15::run(quick, seed),
+        "c16" => c16::run(quick, seed),
+        "c38" => c38::run(quick, seed),
+        "c40" => c40::run(quick, seed),
+        "c41" => c41::run(quick, seed),
+        "c42" => c42::run(quick, seed),
         _ => {
             eprintln!("unknown subcommand {sub}");
             std::process::exit(2);
